@@ -633,6 +633,15 @@ fn exec_dec(prop: &str, spec: &DecSpec, source: &mut dyn OpSource) -> RunOut {
     let n = spec.stream.len();
     let complete = run.aborted.is_none();
 
+    // C10: a panic while withheld BOM bytes are being resolved means those
+    // bytes were never delivered
+    if prop == "C10" && spec.bom != Bom::Off && run.consumed < 3 {
+        if let Some(a) = &run.aborted {
+            if a.starts_with("panic") && run.viols.iter().any(|v| v.oracle == "panic-in-contract") {
+                viols.push(viol("C10", "panic-while-resolving-bom", format!("after {} bytes of {:02x?}: {}", run.consumed, &spec.stream[..spec.stream.len().min(4)], a)));
+            }
+        }
+    }
     // C08: bounded liveness
     if complete && matches!(prop, "C08" | "C02" | "C10") {
         if !run.finished {
